@@ -263,6 +263,19 @@ class Ctx:
                 fcntl.flock(lk, fcntl.LOCK_EX)
                 rc, log2 = sh(cmd, cwd=COQ, timeout=timeout + 30)
             ok = rc == 0
+        if ok and self.tier == "thorough":
+            # independent re-check of the compiled file and everything it depends on
+            mod = "S2T." + props_v[:-2].replace("/", ".")
+            cmd = f"timeout 2400 coqchk -silent -o -Q . S2T {mod}"
+            self.checker_cmds.append(f"cd {COQ} && {cmd}")
+            with open(COQ / ".build.lock", "w") as lk:
+                fcntl.flock(lk, fcntl.LOCK_EX)
+                rc3, out3 = sh(cmd, cwd=COQ, timeout=2500)
+            m = re.search(r"\* Axioms:\s*(.*?)\n\s*\n", out3 + "\n\n", re.S)
+            axioms = m.group(1).strip() if m else "?"
+            self.axioms[f"coqchk:{mod}"] = axioms
+            self.obligation(f"coqchk -o {mod}: no axioms, no unsafe fixpoints", rc3 == 0 and axioms == "<none>",
+                            out3[-600:])
         blocks = parse_assumption_blocks(log2)
         for i, name in enumerate(names):
             if not ok:
